@@ -134,7 +134,7 @@ package eval
 //@   requires i != nil && wfP(p)
 //@   # C10: if/unless is evaluated by one shared instance; a nested conditional must leave the
 //@   # narrowing state of the enclosing one as it found it
-//@   ensures[C10] i.originalTs == old(i.originalTs) && i.narrowTs == old(i.narrowTs) && i.ifNarrowTs == old(i.ifNarrowTs)
+//@   ensures[C10,C11] i.originalTs == old(i.originalTs) && i.narrowTs == old(i.narrowTs) && i.ifNarrowTs == old(i.ifNarrowTs)
 //@   witness post:0.0#0 "c = true\nx = c ? 1 : nil\ny = c ? \"a\" : nil\nif x.nil?\n  if y.nil?\n    dbtp y\n  end\n  dbtp x\nelse\n  dbtp x\nend\n" expect "in.rb:::10:::NilClass"
 
 //@ func (*ti/eval.IfUnless).evaluate
@@ -305,3 +305,12 @@ package eval
 //@ # carries no state from one evaluation into another (what a block must restore lives in the
 //@ # closure that prepareBlockScope returns)
 //@ stateless[C17] ti/eval.Do
+
+// C11: a statement that begins with `[` is an array literal whatever the previous statement left
+// behind: when no expression is being parsed (the flag is cleared at every line end and at the
+// start of an assignment's right-hand side), Evaluation takes no indexing path
+//@ func (*ti/eval.SquareBracket).Evaluation
+//@   requires wfP(p)
+//@   inline 2 1
+//@   ensures[C11] !old(p.isParsingExpression) ==> called(makeArray)
+//@   witness post:0.0#4 "a = \"s\"\n[1, 2].each do |y|\n  dbtp y\nend\n" expect "not defined for String"
